@@ -6,7 +6,10 @@ use cluster::Cluster;
 use fxhash::FxBuildHasher;
 use lru::LruCache;
 use std::num::NonZeroUsize;
+#[cfg(not(jubako_verif_shuttle))]
 use std::sync::{Arc, Mutex, OnceLock};
+#[cfg(jubako_verif_shuttle)]
+use crate::verif::sync::{Arc, Mutex, OnceLock};
 use uuid::Uuid;
 
 use super::ByteRegion;
@@ -59,6 +62,8 @@ impl ContentPack {
     }
 
     fn _get_cluster(&self, cluster_index: ClusterIdx) -> Result<Arc<Cluster>> {
+        #[cfg(jubako_verif)]
+        crate::verif::probe("cluster_load", cluster_index.into_u64(), 0);
         let cluster_info = self.cluster_ptrs.index(*cluster_index)?;
         let cluster = self.reader.parse_data_block::<Cluster>(cluster_info)?;
         Ok(Arc::new(cluster))
@@ -66,6 +71,13 @@ impl ContentPack {
 
     fn get_cluster(&self, cluster_index: ClusterIdx) -> Result<Arc<Cluster>> {
         let mut cache = self.cluster_cache.lock().unwrap();
+        #[cfg(jubako_verif)]
+        {
+            let cap = crate::verif::knob("cluster_cache", 40).max(1);
+            if cache.cap().get() != cap {
+                cache.resize(NonZeroUsize::new(cap).unwrap());
+            }
+        }
         let cached = cache.try_get_or_insert(cluster_index, || self._get_cluster(cluster_index))?;
         Ok(cached.clone())
     }
@@ -182,6 +194,8 @@ impl Pack for ContentPack {
     }
     fn check(&self) -> Result<bool> {
         if self.check_info.get().is_none() {
+            #[cfg(jubako_verif)]
+            crate::verif::point("content_check_info_fill", 0, 0);
             let _ = self.check_info.set(self.reader.parse_block_in::<CheckInfo>(
                 self.pack_header.check_info_pos,
                 self.pack_header.check_info_size(),
